@@ -4,8 +4,28 @@ Explored: ALL binary outcome sequences of length n for every parameter set
 (DESIGN §4 C05); oracle: lock-step agreement with the executable specifications
 in models/error_based.py on drift_state, retraining_recs, counters and (STEPD)
 the three accuracies, after every update.
+
+Families (label prefix after the system name):
+  <n>      base: all 2^n outcome sequences, y_true = 1 / y_pred in {0, 1}, small warm-ups
+  tie<n>   thresholds that are hit EXACTLY (EDDM 1.0 and dyadic ratios, DDM scale 1, STEPD level 1/2):
+           the documented / implemented side of an equality is enforced where both sides are exact
+  ext<n>   legal parameter extremes and orderings (scale / level / threshold 0 and 1, warning stricter than drift,
+           warning == drift)
+  enc      label encodings: the same outcome sequences fed as (y_true, y_pred) pairs from other label sets
+           (bool, -1/+1, {1,2}, negatives, 3 and 4 classes, strings, floats, huge ints, numpy scalar dtypes,
+           int truth / float prediction); labels chosen by a schedule that cycles through every (true, predicted)
+           pair, plus ALL sequences of explicit (true, predicted) pairs at a smaller depth
+  cont     containers: every update passes its two labels in another container (python scalar, 0-d / 1-d / 2-d /
+           object ndarray, list, tuple, Series and 1x1 DataFrame with non-default labels), positionally, by
+           keyword, with and without X
+  rst      reset() as an event: all sequences over {correct, error, reset()}
+  long     long histories (deviation-bounded): near-default and DEFAULT constructor parameters, several epochs,
+           single (thorough: double) flipped outcomes, and a reset() inserted at any position
 """
 import itertools
+
+import numpy as np
+import pandas as pd
 
 from menelaus.concept_drift import DDM, EDDM, STEPD
 
@@ -15,6 +35,66 @@ from mc.observe import stream_obs, fl
 from models.error_based import DDMModel, EDDMModel, STEPDModel
 
 PROPERTY = "C05"
+
+# ---------------------------------------------------------------------------------------------------------------
+# label encodings: class values, optional numpy scalar type of the true / of the predicted label
+ENCODINGS = {
+    "01": {"values": [0, 1]},
+    "bool": {"values": [False, True]},
+    "pm1": {"values": [-1, 1]},
+    "12": {"values": [1, 2]},
+    "neg": {"values": [-2, -1]},
+    "abc3": {"values": [0, 1, 2]},
+    "cls4": {"values": [3, 5, 6, 9]},
+    "str": {"values": ["cat", "dog"]},
+    "str3": {"values": ["a", "ab", "b"]},
+    "float": {"values": [1.0, 2.5]},
+    "frac": {"values": [0.25, 0.75]},
+    "big": {"values": [10 ** 8, 10 ** 8 + 1]},
+    "u8": {"values": [0, 1, 255], "dtype": "uint8"},
+    "i8": {"values": [-1, 1], "dtype": "int8"},
+    "f32": {"values": [0.1, 0.3], "dtype": "float32"},
+    "npbool": {"values": [False, True], "dtype": "bool"},
+    "npstr": {"values": ["no", "yes"], "dtype": "str"},
+    # the truth is an integer label, the classifier emits the class as a float (2 == 2.0 is a correct prediction)
+    "intfloat": {"values": [1, 2], "dtype": "int64", "pred_dtype": "float64"},
+}
+_NPTYPES = {"uint8": np.uint8, "int8": np.int8, "float32": np.float32, "bool": np.bool_, "str": np.str_,
+            "int64": np.int64, "float64": np.float64}
+
+CONTAINERS = ["py", "np0", "list", "tuple", "arr1", "arr2", "objarr", "series", "frame"]
+
+
+def _scalar(v, dt):
+    return v if dt is None else _NPTYPES[dt](v)
+
+
+def _wrap(v, kind, role):
+    if kind == "py":
+        return v
+    if kind == "np0":
+        return np.array(v)
+    if kind == "list":
+        return [v]
+    if kind == "tuple":
+        return (v,)
+    if kind == "arr1":
+        return np.array([v])
+    if kind == "arr2":
+        return np.array([[v]])
+    if kind == "objarr":
+        a = np.empty(1, dtype=object)
+        a[0] = v
+        return a
+    if kind == "series":  # non-default, and different, index labels for the two arguments
+        return pd.Series([v], index=[7 if role == 0 else 11])
+    if kind == "frame":
+        return pd.DataFrame([[v]], columns=["y" if role == 0 else 3], index=[5 if role == 0 else "r"])
+    raise ValueError(kind)
+
+
+def _pairs(k):
+    return [(t, p) for t in range(k) for p in range(k) if t != p]
 
 
 class ErrSystem(System):
@@ -26,10 +106,11 @@ class ErrSystem(System):
 
     def init(self, cfg):
         p = cfg["params"]
-        return {"det": self.det_cls(**p), "model": self.model_cls(**p)}
+        return {"det": self.det_cls(**p), "model": self.model_cls(**p), "nc": 0, "ne": 0, "last": None,
+                "manual": False}
 
     def alphabet(self, cfg, state, pos):
-        return [0, 1]
+        return _alphabet(cfg)
 
     def observe(self, det):
         o = stream_obs(det)
@@ -39,14 +120,84 @@ class ErrSystem(System):
             o["overall_accuracy"] = fl(det.overall_accuracy())
         return o
 
+    # -- feeding -------------------------------------------------------------------------------------------
+    def _labels(self, cfg, state, ev):
+        """(err, true class index, predicted class index) for an outcome / explicit pair event."""
+        enc = ENCODINGS[cfg["enc"]]
+        k = len(enc["values"])
+        if isinstance(ev, (list, tuple)):
+            t, p = ev
+            return int(t != p), t, p
+        if ev:
+            pr = _pairs(k)
+            t, p = pr[state["ne"] % len(pr)]
+            state["ne"] += 1
+        else:
+            t = p = state["nc"] % k
+            state["nc"] += 1
+        return int(ev), t, p
+
+    def _feed(self, cfg, state, ev, pos, ctx):
+        det = state["det"]
+        if "enc" not in cfg:
+            # y_true = 1 always; prediction is right (1) or wrong (0)
+            det.update(y_true=1, y_pred=0 if ev else 1)
+            return int(ev)
+        enc = ENCODINGS[cfg["enc"]]
+        err, t, p = self._labels(cfg, state, ev)
+        yt = _scalar(enc["values"][t], enc.get("dtype"))
+        yp = _scalar(enc["values"][p], enc.get("pred_dtype", enc.get("dtype")))
+        assert bool(yt != yp) == bool(err)
+        if err and bool(yt) and bool(yp):
+            ctx.count("errors_between_truthy_labels")
+        if err and t > p:
+            ctx.count("errors_with_truth_above_prediction")
+        elif err:
+            ctx.count("errors_with_truth_below_prediction")
+        cont = cfg.get("cont", "py")
+        style = 0
+        if cont == "cycle":
+            m = len(CONTAINERS)
+            rot = cfg.get("rot", 0)  # every container meets every position in one of the tasks
+            ct, cp = CONTAINERS[(pos + rot) % m], CONTAINERS[(2 * pos + 1 + rot) % m]
+            style = (pos + rot // 3) % 3
+            ctx.count("container:" + ct)
+        else:
+            ct = cp = cont
+        yt, yp = _wrap(yt, ct, 0), _wrap(yp, cp, 1)
+        if style == 0:
+            det.update(y_true=yt, y_pred=yp)
+        elif style == 1:
+            det.update(yt, yp)
+        else:
+            det.update(y_true=yt, y_pred=yp, X=np.array([[0.5, float(pos)]]))
+        return err
+
     def step(self, cfg, state, ev, pos, ctx):
         det = state["det"]
-        # y_true = 1 always; prediction is right (1) or wrong (0)
-        det.update(y_true=1, y_pred=0 if ev else 1)
+        fam = cfg.get("fam", "base")
+        try:
+            if ev == "R":
+                before = det.drift_state
+                warm = self._in_warmup(state["model"])
+                det.reset()
+                call = lambda m, D: m.reset()  # noqa: E731
+            else:
+                err = self._feed(cfg, state, ev, pos, ctx)
+                call = lambda m, D: m.step(err, D)  # noqa: E731
+        except Violation:
+            raise
+        except Exception as e:  # the property allows no exception for a single (y_true, y_pred) pair
+            raise Violation(
+                "%s-raised" % self.name,
+                "%s raised %s: %s on event %r after %d events" % (self.name, type(e).__name__, e, ev, pos),
+                expected="no exception",
+                observed=repr(e),
+            )
         obs = self.observe(det)
         model, exp, ok = lockstep(
             state["model"],
-            lambda m, D: m.step(ev, D),
+            call,
             lambda e: not diff_keys(e, obs),
             stats=ctx.stats,
         )
@@ -55,21 +206,63 @@ class ErrSystem(System):
             bad = diff_keys(exp, obs)
             raise Violation(
                 "%s-spec" % self.name,
-                "%s disagrees with its executable specification on %s after %d samples"
-                % (self.name, bad, pos + 1),
+                "%s disagrees with its executable specification on %s after %d %s"
+                % (self.name, bad, pos + 1, "events" if cfg.get("alphabet", "bin").endswith("R") else "samples"),
                 expected=exp,
                 observed=obs,
             )
-        if obs["state"] == "drift":
-            ctx.mark("drift_transitions")
-        elif obs["state"] == "warning":
-            ctx.mark("warning_transitions")
-        if model.epochs >= 3 and obs["since"] == 1:
-            ctx.count("third_or_later_epoch_starts")
-        r = obs.get("recs")
-        if r and r[0] is not None and r[1] is not None and r[0] < r[1]:
-            ctx.count("recs_with_warning_before_drift")
+        if model.exact_enforced:
+            ctx.count("exact_ties_enforced", model.exact_enforced)
+            ctx.count("exact_ties_enforced:" + self.name, model.exact_enforced)
+        if ev == "R":
+            ctx.mark("manual_resets")
+            if before == "warning":
+                ctx.count("resets_right_after_warning")
+            elif before == "drift":
+                ctx.count("resets_right_after_drift")
+            if warm:
+                ctx.count("resets_during_warmup")
+            if state["last"] == "R":
+                ctx.count("resets_twice_in_a_row")
+            state["manual"] = True
+        else:
+            if obs["since"] == 1 and state["last"] != "R":
+                state["manual"] = False  # the epoch was started by the detector itself (or is the first)
+            if obs["state"] == "drift":
+                ctx.mark("drift_transitions")
+            elif obs["state"] == "warning":
+                ctx.mark("warning_transitions")
+            if obs["state"] is not None:
+                ctx.count("alarms_in:" + fam)
+                if state["manual"]:
+                    ctx.count("alarms_in_epoch_started_by_reset")
+            if model.epochs >= 3 and obs["since"] == 1:
+                ctx.count("third_or_later_epoch_starts")
+                if fam == "long":
+                    ctx.count("third_or_later_epoch_starts_long")
+            r = obs.get("recs")
+            if r and r[0] is not None and r[1] is not None and r[0] < r[1]:
+                ctx.count("recs_with_warning_before_drift")
+        state["last"] = ev if ev == "R" else None
         return obs
+
+    def _in_warmup(self, model):
+        if self.name == "STEPD":
+            return len(model.outcomes) < 2 * model.w
+        if self.name == "DDM":
+            return model.n < model.n_threshold
+        return model.n_err < model.n_threshold  # EDDM warms up in errors
+
+
+def _alphabet(cfg):
+    a = cfg.get("alphabet", "bin")
+    if a == "bin":
+        return [0, 1]
+    if a == "binR":
+        return [0, 1, "R"]
+    k = len(ENCODINGS[cfg["enc"]]["values"])
+    ev = [[t, t] for t in range(k)] + [list(pr) for pr in _pairs(k)]
+    return ev + (["R"] if a == "pairsR" else [])
 
 
 SYSTEMS = {
@@ -78,6 +271,8 @@ SYSTEMS = {
     "STEPD": ErrSystem("STEPD", STEPD, STEPDModel, accs=True),
 }
 
+# ---------------------------------------------------------------------------------------------------------------
+# base family
 DDM_CFGS = [
     {"n_threshold": n, "warning_scale": w, "drift_scale": d}
     for n in (1, 2, 3, 5)
@@ -100,21 +295,97 @@ STEPD_CFGS = [
     for (w, d) in ((0.7, 0.6), (0.95, 0.55))
 ]
 
+# tie family: thresholds that are met exactly inside the bound
+TIE_CFGS = {
+    # scale 1: p + s >= p_min + 1*s is an equality whenever the current point is the minimum; dyadic scales meet
+    # rational (p, s) pairs such as (1/2, 1/2)
+    "DDM": [
+        {"n_threshold": n, "warning_scale": w, "drift_scale": d}
+        for n in (2, 3, 4)
+        for (w, d) in ((1, 1.5), (0.5, 1), (1, 3))
+    ],
+    # 1.0: every tested error that sets (or equals) the maximum has ratio exactly 1; 0.75 / 0.7 / 0.5 / 0.25: the
+    # library example's thresholds and dyadic ratios such as 4.5 / 9
+    "EDDM": [
+        {"n_threshold": n, "warning_thresh": w, "drift_thresh": d}
+        for n in (1, 2, 3)
+        for (w, d) in ((1.0, 0.5), (0.7, 0.5), (0.75, 0.25), (1.0, 0.9))
+    ],
+    # P(T) is exactly 1/2 when the continuity correction cancels the difference of the accuracies
+    "STEPD": [
+        {"window_size": n, "alpha_warning": w, "alpha_drift": d}
+        for n in (1, 2, 3, 4)
+        for (w, d) in ((0.5, 0.25), (0.75, 0.5))
+    ],
+}
+
+# ext family: extremes and orderings the documentation does not exclude
+EXT_CFGS = {
+    "DDM": [
+        {"n_threshold": n, "warning_scale": w, "drift_scale": d}
+        for n in (1, 3)
+        for (w, d) in ((0, 2), (3, 2), (2, 2), (0, 0), (1, 8))
+    ],
+    "EDDM": [
+        {"n_threshold": n, "warning_thresh": w, "drift_thresh": d}
+        for n in (1, 3)
+        for (w, d) in ((0.9, 0.0), (0.5, 0.9), (0.9, 0.9), (1.0, 1.0), (0.0, 0.0))
+    ],
+    "STEPD": [
+        {"window_size": n, "alpha_warning": w, "alpha_drift": d}
+        for n in (1, 3)
+        for (w, d) in ((0.3, 0.0), (1.0, 0.5), (0.05, 0.3), (0.2, 0.2), (1.0, 1.0), (0.0, 0.0))
+    ],
+}
+
 DEPTH = {
     "quick": {"DDM": 14, "EDDM": 14, "STEPD": 12},
     "thorough": {"DDM": 20, "EDDM": 20, "STEPD": 18},
 }
+# depths of the other dfs families (binary alphabet unless stated)
+DEPTH_X = {
+    "quick": {"tie": {"DDM": 14, "EDDM": 14, "STEPD": 12}, "ext": {"DDM": 12, "EDDM": 12, "STEPD": 11},
+              "enc": {"DDM": 12, "EDDM": 12, "STEPD": 11}, "cont": {"DDM": 12, "EDDM": 12, "STEPD": 11},
+              "rst": {"DDM": 9, "EDDM": 9, "STEPD": 8}, "pairs2": 7, "pairs3": 5},
+    "thorough": {"tie": {"DDM": 17, "EDDM": 17, "STEPD": 15}, "ext": {"DDM": 15, "EDDM": 15, "STEPD": 14},
+                 "enc": {"DDM": 14, "EDDM": 14, "STEPD": 13}, "cont": {"DDM": 14, "EDDM": 14, "STEPD": 13},
+                 "rst": {"DDM": 11, "EDDM": 11, "STEPD": 10}, "pairs2": 8, "pairs3": 6},
+}
+
+# parameter sets of the enc / cont / rst families (small warm-ups so that alarms and several epochs fit)
+SMALL = {
+    "DDM": [{"n_threshold": 2, "warning_scale": 1, "drift_scale": 2}, {"n_threshold": 3, "warning_scale": 0.5, "drift_scale": 1.5}],
+    "EDDM": [{"n_threshold": 2, "warning_thresh": 0.95, "drift_thresh": 0.9}, {"n_threshold": 3, "warning_thresh": 0.8, "drift_thresh": 0.6}],
+    "STEPD": [{"window_size": 2, "alpha_warning": 0.3, "alpha_drift": 0.1}, {"window_size": 3, "alpha_warning": 0.5, "alpha_drift": 0.49}],
+}
+RST_CFGS = {
+    "DDM": SMALL["DDM"] + [{"n_threshold": 1, "warning_scale": 2, "drift_scale": 3}, {"n_threshold": 4, "warning_scale": 1, "drift_scale": 1.5}],
+    "EDDM": SMALL["EDDM"] + [{"n_threshold": 1, "warning_thresh": 0.99, "drift_thresh": 0.5}, {"n_threshold": 2, "warning_thresh": 1.0, "drift_thresh": 0.5}],
+    "STEPD": SMALL["STEPD"] + [{"window_size": 1, "alpha_warning": 0.3, "alpha_drift": 0.1}, {"window_size": 2, "alpha_warning": 0.7, "alpha_drift": 0.6},
+                               {"window_size": 4, "alpha_warning": 0.5, "alpha_drift": 0.25}],
+}
+CONT_ENCS = ["01", "str", "float", "npbool", "abc3"]
 
 
 def _long_default(kind, L):
     """Piecewise-stationary default outcome sequences (1 = error)."""
     if kind == "burst":  # mostly correct, then a burst of errors, then recovery
         return [1 if i % 7 == 3 else 0 for i in range(L // 2)] + [1 if i % 3 else 0 for i in range(L // 4)] + [1 if i % 9 == 0 else 0 for i in range(L - L // 2 - L // 4)]
-    # "ramp": the error density rises in steps
+    if kind == "ramp":  # the error density rises in steps
+        out = []
+        for blk, period in enumerate((11, 6, 3, 2)):
+            out += [1 if i % period == 0 else 0 for i in range(L // 4)]
+        return (out + [1] * L)[:L]
+    # "cycles": calm / degraded regimes alternate several times (third and later epochs with default warm-ups)
     out = []
-    for blk, period in enumerate((11, 6, 3, 2)):
-        out += [1 if i % period == 0 else 0 for i in range(L // 4)]
-    return (out + [1] * L)[:L]
+    blk = 0
+    while len(out) < L:
+        if blk % 2 == 0:
+            out += [1 if i % 8 == 5 else 0 for i in range(45)]
+        else:
+            out += [0 if i % 4 == 1 else 1 for i in range(35)]
+        blk += 1
+    return out[:L]
 
 
 # near-default parameters: the long horizon (default warm-ups of 30) is reached by deviation-bounded histories
@@ -124,6 +395,29 @@ LONG_CFGS = {
     "STEPD": [{"window_size": 30, "alpha_warning": 0.05, "alpha_drift": 0.003}, {"window_size": 12, "alpha_warning": 0.1, "alpha_drift": 0.01},
               {"window_size": 30, "alpha_warning": 0.6, "alpha_drift": 0.55}],
 }
+# round 3: the DEFAULT constructor (no arguments at all) and two more near-default sets, longer histories, reset()
+LONG3_CFGS = {
+    "DDM": [{}, {"n_threshold": 25, "warning_scale": 1.5, "drift_scale": 2.5}],
+    "EDDM": [{}, {"n_threshold": 15, "warning_thresh": 1.0, "drift_thresh": 0.8}],
+    "STEPD": [{}, {"window_size": 20, "alpha_warning": 0.2, "alpha_drift": 0.05}],
+}
+
+
+def _dev_chunks(task, menu, chunk):
+    """Split a one-deviation task by the position of the deviation into chunks of ``chunk`` positions (per-position
+    menus: empty outside the chunk).  The deviation-free history is a leaf of every chunk, i.e. it is executed once
+    per chunk; all other histories exactly once."""
+    default = task["default"]
+    out = []
+    for i0 in range(0, len(default), chunk):
+        t = dict(task)
+        t["menu"] = [list(menu) if i0 <= i < i0 + chunk else [] for i in range(len(default))]
+        t["menu_per_pos"] = True
+        t["prefix"] = list(default[:i0])
+        t["label"] = task["label"] + "|dev@%d-%d" % (i0, min(len(default), i0 + chunk) - 1)
+        t["cost"] = task.get("cost", 1) * (len(default) - i0) / len(default)
+        out.append(t)
+    return out
 
 
 def _long_tasks(tier):
@@ -136,7 +430,7 @@ def _long_tasks(tier):
                 out += dev_split(
                     {
                         "system": name,
-                        "cfg": {"id": "long%d" % ci, "params": p},
+                        "cfg": {"id": "long%d" % ci, "params": p, "fam": "long"},
                         "mode": "dev",
                         "default": _long_default(kind, L),
                         "menu": [0, 1],
@@ -146,12 +440,57 @@ def _long_tasks(tier):
                         "validate_every": 53,
                     }
                 )
+    # longer histories (several epochs with the default warm-ups), one deviation: a flipped outcome or a reset()
+    L3 = 260 if tier == "quick" else 400
+    for name in LONG_CFGS:
+        cfgs = [("dflt%d" % i, p) for i, p in enumerate(LONG3_CFGS[name])] + [("long%d" % i, p) for i, p in enumerate(LONG_CFGS[name]) if i > 0]  # long0 spells out the defaults
+        for cid, p in cfgs:
+            for kind in ("cycles", "ramp"):
+                if kind != "cycles" and cid != "dflt0":
+                    continue
+                out += _dev_chunks(
+                    {
+                        "system": name,
+                        "cfg": {"id": cid + "R", "params": p, "fam": "long", "alphabet": "binR"},
+                        "mode": "dev",
+                        "default": _long_default(kind, L3),
+                        "k": 1,
+                        "label": "%s|long3:%s|%s" % (name, cid, kind),
+                        "cost": 4,
+                        "validate_every": 53,
+                    },
+                    [0, 1, "R"],
+                    26 if name == "STEPD" else 52,
+                )
+    return out
+
+
+def _ev_str(e):
+    return "%d%d." % tuple(e) if isinstance(e, (list, tuple)) else str(e)
+
+
+def _dfs_tasks(name, cid, cfg, depth, split, label, cost=1):
+    """One task per prefix of length ``split`` over the cfg's alphabet."""
+    alpha = _alphabet(cfg)
+    out = []
+    for prefix in itertools.product(alpha, repeat=split):
+        out.append(
+            {
+                "system": name,
+                "cfg": dict(cfg, id=cid),
+                "prefix": [e if not isinstance(e, tuple) else list(e) for e in prefix],
+                "depth": depth - split,
+                "label": "%s|%s|%s" % (name, label, "".join(_ev_str(e) for e in prefix)),
+                "cost": cost * (3 if name == "STEPD" else 1),
+            }
+        )
     return out
 
 
 def tasks(tier, seed):
     out = _long_tasks(tier)
     split = 2 if tier == "quick" else 5
+    dx = DEPTH_X[tier]
     for name, cfgs in (("DDM", DDM_CFGS), ("EDDM", EDDM_CFGS), ("STEPD", STEPD_CFGS)):
         d = DEPTH[tier][name]
         for ci, p in enumerate(cfgs):
@@ -166,6 +505,35 @@ def tasks(tier, seed):
                         "cost": 3 if name == "STEPD" else 1,
                     }
                 )
+        for fam, table in (("tie", TIE_CFGS), ("ext", EXT_CFGS)):
+            for ci, p in enumerate(table[name]):
+                out += _dfs_tasks(name, "%s%d" % (fam, ci), {"params": p, "fam": fam}, dx[fam][name],
+                                  split if fam == "tie" else max(1, split - 1), "%s%d" % (fam, ci),
+                                  cost=1 if fam == "tie" else 0.3)
+        # label encodings (schedule) — every encoding with both small parameter sets
+        for ci, p in enumerate(SMALL[name]):
+            for enc in ENCODINGS:
+                out += _dfs_tasks(name, "enc%d:%s" % (ci, enc), {"params": p, "fam": "enc", "enc": enc},
+                                  dx["enc"][name], 1 if tier == "quick" else 3, "enc%d:%s" % (ci, enc), cost=0.2)
+        # explicit (true, predicted) pairs: all label sequences
+        for enc, less in (("pm1", 0), ("str", 0), ("abc3", 0), ("u8", 1)):
+            k = len(ENCODINGS[enc]["values"])
+            out += _dfs_tasks(name, "pairs:" + enc, {"params": SMALL[name][0], "fam": "enc", "enc": enc, "alphabet": "pairs"},
+                              dx["pairs%d" % k] - less, 1, "pairs:" + enc, cost=0.5)
+        # containers
+        for ci, p in enumerate(SMALL[name]):
+            for ei, enc in enumerate(CONT_ENCS):
+                out += _dfs_tasks(name, "cont%d:%s" % (ci, enc), {"params": p, "fam": "cont", "enc": enc, "cont": "cycle", "rot": ci * len(CONT_ENCS) + ei},
+                                  dx["cont"][name], 1 if tier == "quick" else 3, "cont%d:%s" % (ci, enc), cost=0.4)
+        # reset() as an event
+        for ci, p in enumerate(RST_CFGS[name]):
+            out += _dfs_tasks(name, "rst%d" % ci, {"params": p, "fam": "rst", "alphabet": "binR"},
+                              dx["rst"][name], 2 if tier == "quick" else 3, "rst%d" % ci, cost=0.5)
+        # reset() between explicitly labelled samples (strings / three classes)
+        for enc in ("str", "abc3"):
+            k = len(ENCODINGS[enc]["values"])
+            out += _dfs_tasks(name, "rstpairs:" + enc, {"params": SMALL[name][0], "fam": "rst", "enc": enc, "alphabet": "pairsR"},
+                              dx["pairs%d" % k] - 1, 1, "rstpairs:" + enc, cost=0.5)
     return out
 
 
@@ -173,22 +541,50 @@ REQUIRED = [
     "drift_transitions",
     "warning_transitions",
     "third_or_later_epoch_starts",
+    "third_or_later_epoch_starts_long",
     "recs_with_warning_before_drift",
     "exact_ties",
-]
+    "exact_ties_enforced:DDM",
+    "exact_ties_enforced:EDDM",
+    "exact_ties_enforced:STEPD",
+    "alarms_in:base",
+    "alarms_in:tie",
+    "alarms_in:ext",
+    "alarms_in:enc",
+    "alarms_in:cont",
+    "alarms_in:rst",
+    "alarms_in:long",
+    "errors_between_truthy_labels",
+    "errors_with_truth_above_prediction",
+    "errors_with_truth_below_prediction",
+    "manual_resets",
+    "resets_right_after_warning",
+    "resets_right_after_drift",
+    "resets_during_warmup",
+    "resets_twice_in_a_row",
+    "alarms_in_epoch_started_by_reset",
+] + ["container:" + c for c in CONTAINERS]
 
 
 def describe(tier):
+    dx = DEPTH_X[tier]
     return {
         "rule": "every binary outcome sequence of length n (prefix-shared DFS over the real detector, "
         "snapshots by deepcopy) per parameter set; a history is non-trivial when at least one of its "
-        "updates reported warning or drift; histories are distinct by construction (distinct event sequences "
-        "or distinct parameter sets)",
+        "updates reported warning or drift (or it contains a reset()); histories are distinct by construction "
+        "(distinct event sequences or distinct parameter sets / encodings)",
         "bounds": {
-            "long_histories": "near-default parameters (warm-ups 10-30): two piecewise-stationary default sequences of length %d with every choice of <= %d flipped positions" % ((120, 1) if tier == "quick" else (160, 2)),
-            "alphabet": ["correct", "error"],
+            "long_histories": "near-default parameters (warm-ups 10-30): two piecewise-stationary default sequences of length %d with every choice of <= %d flipped positions; "
+            "default-constructed and near-default detectors on one or two sequences of length %d with one flipped outcome or one reset() at any position"
+            % ((120, 1, 260) if tier == "quick" else (160, 2, 400)),
+            "alphabet": ["correct", "error", "reset() (families rst, long3)", "explicit (true, predicted) label pairs (family enc/pairs)"],
             "depth": DEPTH[tier],
+            "depth_other_families": dx,
             "parameter_sets": {"DDM": len(DDM_CFGS), "EDDM": len(EDDM_CFGS), "STEPD": len(STEPD_CFGS)},
+            "parameter_sets_tie": {k: len(v) for k, v in TIE_CFGS.items()},
+            "parameter_sets_ext": {k: len(v) for k, v in EXT_CFGS.items()},
+            "label_encodings": {k: [repr(x) for x in v["values"]] + [v.get("dtype", "python")] for k, v in ENCODINGS.items()},
+            "containers": CONTAINERS,
         },
         "explanation": "states = tree nodes (no transposition merging for history-keeping detectors); "
         "traces_validated_against_impl = maximal executions on which the real detector and the "
@@ -197,7 +593,11 @@ def describe(tier):
             "DDM/EDDM running-deviation recurrence and the current-std form of the DDM thresholds are taken "
             "as the definition (DESIGN §2.5, pinned by test_ddm::test_warning)",
             "comparisons within relative 1e-9 of their threshold are numerically undecidable and follow the "
-            "implementation (counted as near_tie_steered); exact ties are enforced where both sides are exact",
+            "implementation (counted as near_tie_steered); exact ties are enforced where both sides are exact "
+            "(rational shadow of the recurrences; EDDM: the implemented `<=`; STEPD: P(T) = 1/2 exactly when T = 0)",
+            "which of two equal-sum DDM minima is kept (`<=` vs `<`) is not fixed by the property: steerable",
+            "a prediction is incorrect iff y_pred != y_true (python / numpy equality of the two labels)",
+            "reset() starts a new epoch: statistics, state and retraining_recs cleared, total_samples keeps counting",
             "math.erfc / math.sqrt are trusted",
         ],
     }
